@@ -58,6 +58,7 @@ class Build:
         self.flags = list(self.defs) + ['-DKJN_LBZIP2_VERIF', '-std=' + self.std]
         self.flags.append('-DNDEBUG' if ndebug else '-UNDEBUG')
         self.inlined = {}
+        self.scalarized = {}
 
     def close(self):
         if not self.keep:
@@ -78,12 +79,51 @@ class Build:
         if new:
             # functions that did not exist when the rules were confirmed (a helper extracted from a task body, ...)
             # are analysed in the context of their callers: always-inline them first (semantics-preserving)
-            passes = 'always-inline,mem2reg'
+            passes = os.environ.get('VERIF_INLINE_PASSES', 'always-inline,mem2reg,sccp')
             self.inlined.setdefault(base, []).extend(new)
         r = subprocess.run(['opt-14', '-S', '-passes=' + passes, raw, '-o', ssa], capture_output=True, text=True)
         if r.returncode != 0:
             broken('opt %s failed for %s:\n%s' % (passes, unit, r.stderr[-2000:]))
+        if new and not os.environ.get('VERIF_NO_SROA'):
+            self._scalarize_hosts(base, raw, ssa, new)
         return base, raw, ssa
+
+    def _scalarize_hosts(self, base, raw, ssa, new):
+        """second stage, confined to the functions that received inlined code: by-value aggregate parameters of an
+        inlined helper survive as address-taken copies; sroa forwards them.  Every other function is frozen
+        (optnone) for this stage, so nothing else in the unit changes shape."""
+        txt = open(raw).read()
+        bodies = {}
+        for m in re.finditer(r'^define [^@\n]*@([A-Za-z0-9_.]+)\([^\n]*\{$(.*?)^\}$', txt, re.M | re.S):
+            bodies[m.group(1)] = m.group(2)
+        newset = set(new)
+        hosts = {n for n, b in bodies.items() if n not in newset and
+                 any(re.search(r'@%s\(' % re.escape(x), b) for x in newset)}
+        if not hosts:
+            return
+        st = open(ssa).read()
+        groups = {}
+
+        def repl(m):
+            if m.group(2) in hosts:
+                return m.group(0)
+            gid = m.group(3)
+            groups[gid] = True
+            return m.group(1) + '#8%s' % gid + m.group(4)
+        st2 = re.sub(r'^(define [^@\n]*@([A-Za-z0-9_.]+)\([^\n]*?)#(\d+)( [^\n]*\{)$', repl, st, flags=re.M)
+        add = []
+        for gid in groups:
+            m = re.search(r'^attributes #%s = \{(.*)\}$' % gid, st, re.M)
+            if not m:
+                broken('attribute group #%s not found in %s' % (gid, ssa))
+            body = re.sub(r'\b(alwaysinline|optnone|noinline)\b', '', m.group(1))
+            add.append('attributes #8%s = { noinline optnone %s }' % (gid, body.strip()))
+        tmp = ssa + '.stage1.ll'
+        open(tmp, 'w').write(st2 + '\n' + '\n'.join(add) + '\n')
+        r = subprocess.run(['opt-14', '-S', '-passes=sroa,sccp', tmp, '-o', ssa], capture_output=True, text=True)
+        if r.returncode != 0:
+            broken('opt sroa failed for %s:\n%s' % (base, r.stderr[-2000:]))
+        self.scalarized.setdefault(base, []).extend(sorted(hosts))
 
     _baseline = None
 
@@ -1162,7 +1202,49 @@ def _type_nofn(p):
     return t
 
 
+def _fold_constant_branches(f):
+    """`br i1 true/false` (left behind by constant propagation after inlining a helper called with constant flags):
+    keep the taken edge only, then drop the blocks nothing reaches and their phi inputs"""
+    changed = False
+    for b in f.blocks.values():
+        if not b.insns:
+            continue
+        t = b.insns[-1]
+        if t.op == 'br' and len(t.extra.get('targets', [])) == 2 and t.ops and t.ops[0][0] == 'int':
+            tgt = t.extra['targets'][0] if t.ops[0][1] & 1 else t.extra['targets'][1]
+            t.extra['targets'] = [tgt]
+            t.ops = []
+            changed = True
+    if not changed:
+        return
+    first = next(iter(f.blocks))
+    seen = {first}
+    st = [first]
+    while st:
+        b = f.blocks[st.pop()]
+        t = b.insns[-1]
+        for x in t.extra.get('targets', []) if t.op in ('br', 'switch') else []:
+            if x not in seen and x in f.blocks:
+                seen.add(x)
+                st.append(x)
+    edges = set()
+    for n in seen:
+        t = f.blocks[n].insns[-1]
+        for x in t.extra.get('targets', []) if t.op in ('br', 'switch') else []:
+            edges.add((n, x))
+    for n in list(f.blocks):
+        if n not in seen:
+            del f.blocks[n]
+    for b in f.blocks.values():
+        for i in b.insns:
+            if i.op == 'phi':
+                inc = [(v, src) for v, src in i.extra['incoming'] if (src, b.name) in edges]
+                i.extra['incoming'] = inc
+                i.ops = [v for v, _ in inc]
+
+
 def _finish_function(f, dbgloc):
+    _fold_constant_branches(f)
     for b in f.blocks.values():
         if not b.insns:
             broken('empty block %s in %s' % (b.name, f.name))
